@@ -45,6 +45,7 @@ struct Conn : std::enable_shared_from_this<Conn>
 	std::size_t cur_xfer = 0; // sequential mode: index of the transfer in progress
 	bool cli_up = false, srv_up = false, cli_closed = false, srv_closed = false;
 	bool connect_done = false, accept_done = false; int connect_ec = -1, accept_ec = -1;
+	std::unique_ptr<sa::high_resolution_timer> accept_timer;
 	std::vector<std::vector<unsigned char>> rbuf[2]; // read buffers of the reader of direction d
 	long long woff[2] = {0, 0};        // next stream offset the writer of direction d will offer
 	std::size_t wxf[2] = {0, 0};       // per direction: index into the list of xfers of that direction
@@ -61,7 +62,7 @@ struct Run
 	std::string err05, err06;
 	bool in_call = false;
 	std::shared_ptr<Conn> conns[MAXC];
-	bool gather_cross = false, scatter = false, reuse_unread = false, eof_seen = false, wait_style = false;
+	bool gather_cross = false, scatter = false, reuse_unread = false, eof_seen = false, wait_style = false, late_accept = false;
 	struct PairLog { tcp::endpoint a, b; std::size_t pos; }; std::vector<PairLog> pairs; // (client ep, server ep) of every established generation
 	void fail05(std::string m) { if (err05.empty()) err05 = std::move(m); }
 	void fail06(std::string m) { if (err06.empty()) err06 = std::move(m); }
@@ -386,14 +387,27 @@ void start_generation(std::shared_ptr<Conn> c)
 		c->accept_done = true; c->accept_ec = ec_code(e);
 		if (!e) side_up(c, 1);
 	};
+	int const overload = c->spec.akind % 3;
+	auto post_accept = [c, gen, on_accept, overload]() {
+		bool const was = c->R->in_call; c->R->in_call = true;
+		if (overload == 0) c->acc->async_accept(*c->srv, on_accept);
+		else if (overload == 1) c->acc->async_accept(*c->srv, c->peer_ep, on_accept);
+		else c->acc->async_accept([c, gen, on_accept](boost::system::error_code const& e, tcp::socket peer) {
+			if (c->gen != gen) return;
+			if (!e) c->srv.reset(new tcp::socket(std::move(peer)));
+			on_accept(e);
+		});
+		c->R->in_call = was;
+	};
 	R.in_call = true;
-	if (c->spec.akind == 0) c->acc->async_accept(*c->srv, on_accept);
-	else if (c->spec.akind == 1) c->acc->async_accept(*c->srv, c->peer_ep, on_accept);
-	else c->acc->async_accept([c, gen, on_accept](boost::system::error_code const& e, tcp::socket peer) {
-		if (c->gen != gen) return;
-		if (!e) c->srv.reset(new tcp::socket(std::move(peer)));
-		on_accept(e);
-	});
+	if (c->spec.akind < 3) post_accept();
+	else
+	{
+		c->R->late_accept = true;
+		c->accept_timer.reset(new sa::high_resolution_timer(w.node(g.snode)));
+		c->accept_timer->expires_after(sim::chrono::milliseconds(40));
+		c->accept_timer->async_wait([c, gen, post_accept](boost::system::error_code const& e) { if (!e && c->gen == gen && c->acc && c->acc->is_open()) post_accept(); });
+	}
 	c->cli->async_connect(sep, [c, gen](boost::system::error_code const& e) {
 		if (c->R->in_call) c->R->fail05("a connect handler ran inside the initiating call");
 		if (c->gen != gen) return;
@@ -494,7 +508,7 @@ Verdict run_case(Case const& c, Ctx& ctx)
 			ConnSpec* s = spec_of(specs, r.a[0]); if (!s || s->present) continue;
 			s->present = true; s->cnode = int(((r.a[1] % nn) + nn) % nn); s->snode = int(((r.a[2] % nn) + nn) % nn);
 			if (s->snode == s->cnode && prop != "C19") s->snode = (s->cnode + 1) % nn; // (only the capture cases connect within one node)
-			s->akind = int(((r.a[3] % 3) + 3) % 3);
+			s->akind = int(((r.a[3] % 6) + 6) % 6); // 0-2: accept overload, posted before the connect; 3-5: the same overloads posted 40 ms after it (the SYN is queued by then)
 		}
 		else if (r.name == "gen" && r.a.size() >= 6)
 		{
@@ -634,7 +648,7 @@ Verdict run_case(Case const& c, Ctx& ctx)
 		// teardown
 		for (int i = 0; i < MAXC; ++i) if (auto cn = R.conns[i]) { cn->gen = 1000; boost::system::error_code ec; if (cn->cli) cn->cli->close(ec); if (cn->srv) cn->srv->close(ec); if (cn->acc) cn->acc->close(ec); }
 		{ Budget b(300000); run_budgeted(w.sim(), b); }
-		for (int i = 0; i < MAXC; ++i) if (auto cn = R.conns[i]) { cn->cli.reset(); cn->srv.reset(); cn->acc.reset(); }
+		for (int i = 0; i < MAXC; ++i) if (auto cn = R.conns[i]) { cn->accept_timer.reset(); cn->cli.reset(); cn->srv.reset(); cn->acc.reset(); }
 		if (udriver) udriver->cancel();
 		usock.clear(); udriver.reset();
 		{ Budget b(100000); run_budgeted(w.sim(), b); }
@@ -790,7 +804,7 @@ Verdict run_case(Case const& c, Ctx& ctx)
 	for (auto const& s : specs) if (s.present) { if (s.gens.size() >= 2) any_reuse = true; for (auto const& g : s.gens) if (g.hold) any_hold = true; }
 	if (drops) ctx.label("drop"); if (redrops) ctx.label("retransmission_dropped_again"); if (reorders) ctx.label("reordered_arrival");
 	if (R.gather_cross) ctx.label("gather_write_crossing_segment"); if (R.scatter) ctx.label("scatter_read"); if (R.reuse_unread) ctx.label("reuse_with_unread_data");
-	if (any_reuse) ctx.label("reuse"); if (R.eof_seen) ctx.label("eof"); if (R.wait_style) ctx.label("wait_then_read_some"); if (any_hold) ctx.label("hold");
+	if (any_reuse) ctx.label("reuse"); if (R.eof_seen) ctx.label("eof"); if (R.wait_style) ctx.label("wait_then_read_some"); if (R.late_accept) ctx.label("accept_posted_after_the_syn_arrived"); if (any_hold) ctx.label("hold");
 	if (segs >= 10) ctx.label("ten_segments");
 	if (accepted_side_segments >= 2) ctx.label("accepted_side_sends");
 	if (mtu_nondefault) ctx.label("mtu_nondefault");
@@ -870,7 +884,7 @@ rc::Gen<Case> gen_c05(long long maxtotal)
 	};
 	return rc::gen::map(rc::gen::tuple(gen_q("qnet", {-1, -1}, 1, 1475), gen_q("qout", {0}, 0, 1475), kit::range(0, 3),
 		rc::gen::container<std::vector<std::vector<long long>>>(fault), rc::gen::container<std::vector<std::vector<long long>>>(fault),
-		rc::gen::container<std::vector<std::vector<Rec>>>(gen1(0)), rc::gen::container<std::vector<std::vector<Rec>>>(gen1(1)), kit::range(0, 2), kit::weighted({{3, 1475}, {1, 500}, {1, 9000}})),
+		rc::gen::container<std::vector<std::vector<Rec>>>(gen1(0)), rc::gen::container<std::vector<std::vector<Rec>>>(gen1(1)), kit::range(0, 5), kit::weighted({{3, 1475}, {1, 500}, {1, 9000}})),
 		[](std::tuple<Rec, Rec, long long, std::vector<std::vector<long long>>, std::vector<std::vector<long long>>, std::vector<std::vector<Rec>>, std::vector<std::vector<Rec>>, long long, long long> t) {
 			Case c;
 			c.recs.push_back(mk("node", {0})); c.recs.push_back(mk("node", {0}));
@@ -900,7 +914,7 @@ rc::Gen<Case> gen_c06(long long maxtotal)
 	return rc::gen::mapcat(kit::range(0, 2), [maxtotal](long long finite) {
 		int const mode = finite ? 1 : 0;
 		auto qs = rc::gen::tuple(gen_q("qout", {0}, mode, 1475), gen_q("qnet", {-1, -1}, mode, 1475), gen_q("qin", {1}, mode, 1475), gen_q("qout", {1}, mode, 1475), gen_q("qin", {0}, mode, 1475), gen_q("qnet", {-1, -1}, mode, 1475));
-		return rc::gen::map(rc::gen::tuple(qs, kit::range(0, 63), rc::gen::container<std::vector<Rec>>(gen_xfer(0, maxtotal, 2)), gen_xfer(0, maxtotal, 0), kit::range(0, 2), kit::range(0, 1)),
+		return rc::gen::map(rc::gen::tuple(qs, kit::range(0, 63), rc::gen::container<std::vector<Rec>>(gen_xfer(0, maxtotal, 2)), gen_xfer(0, maxtotal, 0), kit::range(0, 5), kit::range(0, 1)),
 			[finite](std::tuple<std::tuple<Rec, Rec, Rec, Rec, Rec, Rec>, long long, std::vector<Rec>, Rec, long long, long long> t) {
 				Case c;
 				c.recs.push_back(mk("node", {0})); c.recs.push_back(mk("node", {0}));
